@@ -9,6 +9,8 @@ Executable, Mathlib-free.  Each procedure of `/repo` is a *decision tree over ob
 * `objectIntersects`  — `Object.intersects(other)` with the planar-box fast paths (object_types.py)
 * `minimumDistance`   — `Object.minimumDistanceTo(other)` with the planar fast path
 * `isPlanarBox`       — `Object._isPlanarBox`
+* `volumeMinimumDistance` — `MeshVolumeRegion.minimumDistanceTo` (BVH surface distance + nested-volume correction)
+* `isConvexFlag`      — `MeshVolumeRegion.isConvex` (override, trimesh's edge test, hull-volume guard)
 * `circumradiusSq`    — the three branches of `MeshVolumeRegion._circumradius` (squared, exact)
 
 An *observation* is what the real code reads from its numerical back-ends (FCL, trimesh, shapely,
@@ -260,21 +262,80 @@ def objectIntersects (c : ObjCfg) (o : ObjObs) : Bool × OExit :=
     (o.polyIntersects, .planarRegion)
   else (o.volumeAnswer, .volume)
 
+/-! ### `MeshVolumeRegion.minimumDistanceTo(MeshVolumeRegion)`
+
+`dist = fcl.distance(selfObj, otherObj)` over the triangle-level (BVH) distance models of
+`_fclDistanceData`; BVH models are *surfaces*, so a volume nested inside another one is reported as
+being apart: `if dist > 0 and self.intersects(other): return 0.0`. -/
+
+structure VolDistObs where
+  fclDist : Rat          -- fcl.distance over the BVH (surface) models
+  volIntersects : Bool   -- self.intersects(other)   (only evaluated when the first conjunct holds)
+  deriving Repr, Inhabited
+
+structure VolDistCfg where
+  posCmp : Cmp           -- `dist > 0`
+  posThr : Rat
+  conn : Conn            -- `and`
+  nestedRet : Rat        -- `return 0.0`
+  /-- both distance geometries are triangle-level BVH models (never `fcl.Convex`, whose GJK distance is inexact) -/
+  bvhOnly : Bool
+
+/-- (value, took the nested-volume correction) -/
+def volumeMinimumDistance (c : VolDistCfg) (o : VolDistObs) : Rat × Bool :=
+  if c.conn.eval (c.posCmp.eval o.fclDist c.posThr) o.volIntersects then (c.nestedRet, true)
+  else (o.fclDist, false)
+
 structure DistObs where
   selfPlanar : Bool
   otherPlanar : Bool
   zS : Rat
   zO : Rat
   polyDist : Rat         -- shapely distance of the two bounding polygons
-  volumeDist : Rat       -- fcl.distance of the two occupied spaces
+  fclDist : Rat          -- fcl.distance of the two occupied spaces (BVH surface models)
+  volIntersects : Bool   -- self.occupiedSpace.intersects(other.occupiedSpace)
   deriving Repr, Inhabited
 
 structure DistCfg where
   zCmp : Cmp             -- self.z == other.z
 
-def minimumDistance (c : DistCfg) (o : DistObs) : Rat × Bool :=
-  if o.selfPlanar && o.otherPlanar && c.zCmp.eval o.zS o.zO then (o.polyDist, true)
-  else (o.volumeDist, false)
+inductive DExit where
+  | fast | nested | fcl
+  deriving DecidableEq, Repr, Inhabited
+
+def DExit.name : DExit → String
+  | .fast => "fast" | .nested => "nested" | .fcl => "fcl"
+
+/-- `Object.minimumDistanceTo`: the planar fast path, else `occupiedSpace.minimumDistanceTo` -/
+def minimumDistance (c : DistCfg) (vc : VolDistCfg) (o : DistObs) : Rat × DExit :=
+  if o.selfPlanar && o.otherPlanar && c.zCmp.eval o.zS o.zO then (o.polyDist, .fast)
+  else
+    let r := volumeMinimumDistance vc { fclDist := o.fclDist, volIntersects := o.volIntersects }
+    (r.1, if r.2 then .nested else .fcl)
+
+/-! ## `MeshVolumeRegion.isConvex`
+
+`_isConvex` given by the constructor wins; otherwise trimesh's edge-based test **and** the mesh must fill
+its convex hull: `mesh.volume >= (1 - 1e-6) * mesh.convex_hull.volume`. -/
+
+structure ConvexObs where
+  override : Option Bool   -- self._isConvex
+  trimeshConvex : Bool     -- self.mesh.is_convex
+  vol : Rat                -- self.mesh.volume
+  hullVol : Rat            -- self.mesh.convex_hull.volume
+  deriving Repr, Inhabited
+
+structure ConvexCfg where
+  overrideFirst : Bool             -- `if self._isConvex is not None: return self._isConvex` comes first
+  needsTrimesh : Bool              -- `if not mesh.is_convex: return False`
+  volLhs : ConvexObs → Rat
+  volCmp : Cmp
+  volRhs : ConvexObs → Rat
+
+def isConvexFlag (c : ConvexCfg) (o : ConvexObs) : Bool :=
+  match (if c.overrideFirst then o.override else none) with
+  | some b => b
+  | none => (if c.needsTrimesh then o.trimeshConvex else true) && c.volCmp.eval (c.volLhs o) (c.volRhs o)
 
 /-! ## `MeshVolumeRegion._circumradius` (squared, exact rational arithmetic) -/
 
@@ -301,5 +362,45 @@ def fallbackCircSq (c : Center) (pos : V3) (verts : List V3) : Rat :=
   match c with
   | .origin => maxQ (verts.map V3.normSq)
   | .position => maxQ (verts.map fun v => V3.distSq v pos)
+
+/-- 3×3 matrix by rows -/
+abbrev Mat3 := V3 × V3 × V3
+
+def Mat3.mulVec (m : Mat3) (v : V3) : V3 := (V3.dot m.1 v, V3.dot m.2.1 v, V3.dot m.2.2 v)
+
+/-- `MᵀM = I` (the columns are orthonormal): what a rotation matrix satisfies -/
+def Mat3.isOrtho (m : Mat3) : Bool :=
+  decide (m.1.1 * m.1.1 + m.2.1.1 * m.2.1.1 + m.2.2.1 * m.2.2.1 = 1) &&
+  decide (m.1.2.1 * m.1.2.1 + m.2.1.2.1 * m.2.1.2.1 + m.2.2.2.1 * m.2.2.2.1 = 1) &&
+  decide (m.1.2.2 * m.1.2.2 + m.2.1.2.2 * m.2.1.2.2 + m.2.2.2.2 * m.2.2.2.2 = 1) &&
+  decide (m.1.1 * m.1.2.1 + m.2.1.1 * m.2.1.2.1 + m.2.2.1 * m.2.2.2.1 = 0) &&
+  decide (m.1.1 * m.1.2.2 + m.2.1.1 * m.2.1.2.2 + m.2.2.1 * m.2.2.2.2 = 0) &&
+  decide (m.1.2.1 * m.1.2.2 + m.2.1.2.1 * m.2.1.2.2 + m.2.2.2.1 * m.2.2.2.2 = 0)
+
+/-- rigid placement `x ↦ R x + p` (`MeshRegion._transform` without scaling) -/
+def rigid (m : Mat3) (p : V3) (x : V3) : V3 := V3.add (m.mulVec x) p
+
+/-- component-wise scaling by the dimensions -/
+def V3.scale (d v : V3) : V3 := (d.1 * v.1, d.2.1 * v.2.1, d.2.2 * v.2.2)
+
+def max3 (d : V3) : Rat := let m := if d.1 < d.2.1 then d.2.1 else d.1; if m < d.2.2 then d.2.2 else m
+
+/-- which branch of `_circumradius` is taken and what it reads -/
+inductive CircSource where
+  /-- `self._scaledShape._circumradius`: the scaled shape is itself a `MeshVolumeRegion` placed at the
+      origin without rotation, whose vertices are `sv` -/
+  | scaled (sv : List V3)
+  /-- `max(dims) * self._shape._circumradius`: `uv` are the vertices of the unit-extent shape mesh -/
+  | shape (dims : V3) (uv : List V3)
+  /-- `numpy.max(numpy.linalg.norm(self.mesh.vertices - self.position, axis=1))` -/
+  | fallback
+
+/-- `MeshVolumeRegion._circumradius`, squared; `c` is the centre used by the fall-back expression
+    (regenerated from the source), `pos`/`verts` the region's position and world-space vertices -/
+def circumradiusSq (c : Center) (src : CircSource) (pos : V3) (verts : List V3) : Rat :=
+  match src with
+  | .scaled sv => fallbackCircSq c V3.zero sv
+  | .shape dims uv => max3 dims * max3 dims * maxQ (uv.map V3.normSq)
+  | .fallback => fallbackCircSq c pos verts
 
 end Scenic.Solid
